@@ -166,22 +166,24 @@ func (b *Bucket) Len() (n uint16) {
 }
 
 func (b *Bucket) MarshalBinary() (data []byte, err error) {
-	bytes := make([]byte, 16)
-	n := 0
 	b.Length = b.Len() // Calculate length first
-	binary.BigEndian.PutUint16(bytes[n:], b.Length)
+	data = make([]byte, int(b.Length))
+	var bytes []byte
+	n := 0
+	binary.BigEndian.PutUint16(data[n:], b.Length)
 	n += 2
-	binary.BigEndian.PutUint16(bytes[n:], b.Weight)
+	binary.BigEndian.PutUint16(data[n:], b.Weight)
 	n += 2
-	binary.BigEndian.PutUint32(bytes[n:], b.WatchPort)
+	binary.BigEndian.PutUint32(data[n:], b.WatchPort)
 	n += 4
-	binary.BigEndian.PutUint32(bytes[n:], b.WatchGroup)
+	binary.BigEndian.PutUint32(data[n:], b.WatchGroup)
 	n += 4
-	data = append(data, bytes...)
+	n += 4 // for padding
 
 	for _, a := range b.Actions {
 		bytes, err = a.MarshalBinary()
-		data = append(data, bytes...)
+		copy(data[n:], bytes)
+		n += len(bytes)
 	}
 
 	return
